@@ -10,6 +10,7 @@ package evalfilter
 import (
 	"context"
 	"fmt"
+	"math"
 	"sort"
 	"strings"
 	"sync"
@@ -159,6 +160,26 @@ func (e *Eval) Prepare(flags ...[]byte) error {
 	//
 	if err != nil {
 		return err
+	}
+
+	//
+	// The operands of our instructions - jump-targets, and offsets into
+	// the constant-pool - are sixteen bits wide.  A program which is
+	// larger than that would have them wrap around, silently, and jump
+	// into the middle of something else.
+	//
+	if len(e.instructions) > math.MaxUint16 || len(e.constants) > math.MaxUint16 {
+		return fmt.Errorf("the program is too large: %d bytes of bytecode, %d constants (the limit is %d for each)", len(e.instructions), len(e.constants), math.MaxUint16)
+	}
+	tooLarge := []string{}
+	for name, fun := range e.functions {
+		if len(fun.Bytecode) > math.MaxUint16 {
+			tooLarge = append(tooLarge, name)
+		}
+	}
+	if len(tooLarge) > 0 {
+		sort.Strings(tooLarge)
+		return fmt.Errorf("the function %s is too large: more than %d bytes of bytecode", tooLarge[0], math.MaxUint16)
 	}
 
 	//
